@@ -90,7 +90,7 @@ void h_aiff_rate (void)
                 post = "((0 <= g_idx && g_idx < len) ==> (dest [g_idx] == %s && src [g_idx] == vin_v))" % rule.replace("V", "vin_v")
                 inv = "0 <= i && i <= len && ((0 <= g_idx && g_idx < i && g_idx < len) ==> dest [g_idx] == %s)" % rule.replace("V", "vin_v")
                 decl = "%s *dest ; const %s *src ; int len ;" % (T, T)
-            h = """#include "env_pre.h"
+            sh = """#include "env_pre.h"
 #include "pcm.c"
 #include "ghost.h"
 %(T)s vin_v ;
@@ -105,7 +105,7 @@ void h_unit (void)
 	CANARY () ;
 }
 """ % dict(T=T, fn=fn, sig=sig, req=req, pre=pre, post=post, asg=asg, decl=decl, call=call)
-            extra.append({"name": "sfendian." + fn, "props": ["C20", "C01", "C05"], "harness_text": h, "template": "units/gen_pairs.py", "entry": "h_unit", "enforce": fn,
+            extra.append({"name": "sfendian." + fn, "props": ["C20", "C01", "C05"], "harness_text": sh, "template": "units/gen_pairs.py", "entry": "h_unit", "enforce": fn,
                           "function": "sfendian.h:" + fn, "timeout": 600, "cbmc_flags": ["--object-bits", "9"],
                           "loops": {fn: [{"loop_id": 0, "assigns_locals": True, "assigns": asg, "invariants": inv, "decreases": "len - i"}]}, "trusted": []})
     return extra + [{"name": "pairs.pcm_and_byte_order", "props": ["C01", "C20"], "harness_text": "\n".join(h), "template": "units/gen_pairs.py", "entry": "h_pairs",
